@@ -52,7 +52,7 @@ def nla_reads(name, contig, site, length, cell, umi, reverse=False, paired=None,
 
 
 def chic_reads(name, contig, site, length, cell, umi, reverse=False, paired=None, r2_end_shift=0, duplicate_flag=False,
-               extra_tags=None, mapq=60):
+               extra_tags=None, mapq=60, clip=0):
     """Reads of one (untrimmed-layout, MX absent -> untrimmed) CHIC fragment whose site coordinate is `site`:
     forward R1 starts at site+1, reverse R1 ends (reference_end) at site."""
     if paired is None:
@@ -67,8 +67,15 @@ def chic_reads(name, contig, site, length, cell, umi, reverse=False, paired=None
         pos = site + 1
     else:
         pos = site - r1len
+    # soft clip at the read start (5' end): leading S on forward reads, trailing S on reverse reads
+    if clip:
+        cig1 = f'{clip}S{r1len - clip}M' if not reverse else f'{r1len - clip}M{clip}S'
+        pos1 = pos + clip if not reverse else pos
+        # reverse: the aligned block loses its last `clip` reference bases, reference_end moves left
+    else:
+        cig1, pos1 = f'{r1len}M', pos
     if not paired:
-        return [make_read(HDR, name, seq, contig, pos, f'{r1len}M', reverse=reverse, read1=True, paired=False, tags=tags,
+        return [make_read(HDR, name, seq, contig, pos1, cig1, reverse=reverse, read1=True, paired=False, tags=tags,
                           flag_extra=flag_extra, mapq=mapq), None]
     if not reverse:
         r2_pos = site + 1 + length - RLEN + r2_end_shift
@@ -76,10 +83,10 @@ def chic_reads(name, contig, site, length, cell, umi, reverse=False, paired=None
     else:
         r2_pos = site - length - r2_end_shift
         r2_rev = False
-    r1 = make_read(HDR, name, seq, contig, pos, f'{r1len}M', reverse=reverse, read1=True, paired=True,
+    r1 = make_read(HDR, name, seq, contig, pos1, cig1, reverse=reverse, read1=True, paired=True,
                    mate=(contig, r2_pos, r2_rev, False), tags=tags, flag_extra=flag_extra, mapq=mapq)
     r2 = make_read(HDR, name, BG[150:150 + RLEN], contig, r2_pos, f'{RLEN}M', reverse=r2_rev, read1=False, paired=True,
-                   mate=(contig, pos, reverse, False), tags=tags, flag_extra=flag_extra, mapq=mapq)
+                   mate=(contig, pos1, reverse, False), tags=tags, flag_extra=flag_extra, mapq=mapq)
     return [r1, r2]
 
 
